@@ -199,8 +199,10 @@ def st_case(draw):
     opts = [{"flag": "--opt-%s%s" % (letters[k], letters[(k * 3 + 1) % 10]),
              "target": draw(st.integers(-1, n - 1))} for k in range(nopt)]
     opts = draw(st.permutations(opts)) if opts else opts
-    words = draw(st.lists(st.sampled_from(["-", "--", "h", "help", "p", "", "x", "el", "file.txt", "cmd", "-h-", "cmd0x", "c1"]),
-                          max_size=4, unique=True))
+    words = draw(st.lists(st.sampled_from(["-", "--", "h", "help", "p", "", "x", "el", "file.txt", "cmd", "-h-", "cmd0x", "c1",
+                                           # names that other parsers of the same process use for their commands
+                                           "cmd1", "cmd2", "cmd4", "cmd6", "c1x", "c3x", "c5x", "c6x"]),
+                          max_size=6, unique=True))
     return {"cmds": cmds, "default": dflt, "opts": list(opts), "spaced": draw(st.booleans()),
             "positional": draw(st.booleans()), "words": words}
 
